@@ -425,6 +425,45 @@ def t_extractpred(tree: ast.AST) -> int:
     return count[0]
 
 
+def t_extracttail(tree: ast.AST) -> int:
+    """the second half of every method body (3+ statements) extracted into a new private method `_tail_N(self, <locals it reads>)` of
+    the same class, called as `return self._tail_N(...)` - the extract-method refactoring, applied everywhere."""
+    count = [0]
+    for cls in ast.walk(tree):
+        if not isinstance(cls, ast.ClassDef):
+            continue
+        new_methods = []
+        for fn in cls.body:
+            if not isinstance(fn, ast.FunctionDef) or not fn.args.args or fn.args.args[0].arg != "self" or fn.decorator_list:
+                continue
+            if fn.args.vararg or fn.args.kwarg or any(isinstance(x, (ast.Yield, ast.YieldFrom, ast.Await, ast.Global, ast.Nonlocal)) for x in ast.walk(fn)):
+                continue
+            body = fn.body
+            start = 1 if body and isinstance(body[0], ast.Expr) and isinstance(body[0].value, ast.Constant) else 0
+            if len(body) - start < 3:
+                continue
+            if any(isinstance(x, ast.Call) and isinstance(x.func, ast.Name) and x.func.id == "super" and not x.args for x in ast.walk(fn)):
+                continue  # zero-argument super() needs the defining method
+            k = start + (len(body) - start + 1) // 2
+            head, tail = body[:k], body[k:]
+            if any(isinstance(x, (ast.FunctionDef, ast.Lambda, ast.ClassDef)) for st in head for x in ast.walk(st)):
+                continue  # closures defined in the head may capture names rebound in the tail
+            bound_head = {a.arg for a in fn.args.args[1:] + fn.args.kwonlyargs} | {
+                x.id for st in head for x in ast.walk(st) if isinstance(x, ast.Name) and not isinstance(x.ctx, ast.Load)}
+            reads = sorted({x.id for st in tail for x in ast.walk(st) if isinstance(x, ast.Name) and x.id in bound_head})
+            count[0] += 1
+            nm = f"_tail_{cls.name}_{count[0]}"
+            m = ast.FunctionDef(name=nm, args=ast.arguments(posonlyargs=[], args=[ast.arg(arg="self")] + [ast.arg(arg=a) for a in reads],
+                                                             kwonlyargs=[], kw_defaults=[], defaults=[]),
+                                body=tail, decorator_list=[], type_params=[])
+            new_methods.append(ast.copy_location(m, tail[0]))
+            call = ast.Call(func=ast.Attribute(value=ast.Name(id="self", ctx=ast.Load()), attr=nm, ctx=ast.Load()),
+                            args=[ast.Name(id=a, ctx=ast.Load()) for a in reads], keywords=[])
+            fn.body = head + [ast.copy_location(ast.Return(value=call), tail[0])]
+        cls.body.extend(new_methods)
+    return count[0]
+
+
 TRANSFORMS: List[Tuple[str, str, Callable[[ast.AST], int]]] = [
     ("roundtrip", "every module replaced by ast.unparse(ast.parse(src)) (comments, layout, quoting gone)", t_roundtrip),
     ("rename", "every purely local variable of every function renamed", t_rename),
@@ -439,6 +478,7 @@ TRANSFORMS: List[Tuple[str, str, Callable[[ast.AST], int]]] = [
     ("ternary", "every `x = a if c else b` turned into an if/else statement", t_ternary),
     ("earlyret", "every function body ending in `if c: A` turned into `if not c: return` + A", t_earlyret),
     ("itemsloop", "every `for k, v in d.items():` turned into `for k in d: v = d[k]`", t_itemsloop),
+    ("extracttail", "the second half of every method body extracted into a new private method and called in place", t_extracttail),
 ]
 
 
